@@ -309,6 +309,13 @@ def _untuple_helper_calls(m: pf.Module, cls: str, target: str) -> pf.Module:
     m2 = pf.Module(m.rel, m.path, m.src, tree)
     fn = m2.func(f'{cls}.{target}')
     n = [0]
+    # a private @staticmethod helper called as `self.h(..)` is the plain method `h(self, ..)` for that call (engines/inline expands undecorated methods only)
+    for h in m2.cls(cls).body:
+        if isinstance(h, ast.FunctionDef) and h.name.startswith('_') and len(h.decorator_list) == 1 and pf.dotted(h.decorator_list[0]) == 'staticmethod' \
+                and not any(a.arg == 'self' for a in h.args.args) and not any(isinstance(x, ast.Name) and x.id == 'self' for x in ast.walk(h)):
+            h.decorator_list = []
+            h.args.args.insert(0, ast.arg(arg='self'))
+            n[0] += 1
 
     def block(stmts: List[ast.stmt]) -> List[ast.stmt]:
         out: List[ast.stmt] = []
